@@ -21,6 +21,7 @@ def styles_for(r, n):
         st = {"legacy": r.random() < 0.5, "indent": r.choice(["", "  ", "    ", "\t"]),
               "comment_lines": r.choice([0, 0.2, 0.5]),
               "trailing": set(k for k in TRAILING_OK if r.random() < 0.5), "join_block_comments": r.random() < 0.6,
+              "top_comment": r.random() < 0.4, "blank_ws": r.random() < 0.4, "py_indent": r.random() < 0.4,
               "rng": random.Random(r.randrange(1 << 30))}
         out.append(st)
     return out
@@ -28,7 +29,8 @@ def styles_for(r, n):
 
 def describe(st):
     return {"legacy": st["legacy"], "indent": st["indent"], "comment_lines": st["comment_lines"], "trailing": sorted(st["trailing"]),
-            "join_block_comments": st.get("join_block_comments", False)}
+            "join_block_comments": st.get("join_block_comments", False), "top_comment": st.get("top_comment"),
+            "blank_ws": st.get("blank_ws"), "py_indent": st.get("py_indent")}
 
 
 def compile_outcome(src):
